@@ -78,3 +78,31 @@ benign("c17-benign-validation-in-helper", ["C17"],
      ("jpeg/lossless/encoder.go", "// Encode encodes pixel data to JPEG Lossless format\n", "func validDims(w, h int) bool { return w >= 1 && h >= 1 && w <= 65535 && h <= 65535 }\n\n// Encode encodes pixel data to JPEG Lossless format\n")])
 benign("c17-benign-buffer-check-reordered", ["C17"],
     [("jpeg/baseline/encoder.go", "	if len(pixelData) < width*height*components {", "	if need := width * height * components; need > len(pixelData) {")])
+# ---------------------------------------------------------------- C16
+brk("c16-psot-forgets-sod", ["C16"],
+    [("jpeg2000/encoder.go", "	tilePartLength := len(tileBytes) + tileHeader.Len() + 14 // SOT(12) + header + SOD(2) + data\n	_ = binary.Write(buf, binary.BigEndian, uint32(tilePartLength))\n	_ = binary.Write(buf, binary.BigEndian, uint8(0)) // TPsot\n	_ = binary.Write(buf, binary.BigEndian, uint8(1)) // TNsot\n\n	// Write tile-part header (e.g., RGN)",
+      "	tilePartLength := len(tileBytes) + tileHeader.Len() + 12 // SOT(12) + header + data\n	_ = binary.Write(buf, binary.BigEndian, uint32(tilePartLength))\n	_ = binary.Write(buf, binary.BigEndian, uint8(0)) // TPsot\n	_ = binary.Write(buf, binary.BigEndian, uint8(1)) // TNsot\n\n	// Write tile-part header (e.g., RGN)")],
+    "BYTES", "writeTile")
+brk("c16-psot-omits-tile-header", ["C16"],
+    [("jpeg2000/encoder.go", "uint32(len(data)+tileHeader.Len()+14)", "uint32(len(data)+14)")],
+    "BYTES", "writeHTJ2KTileParts")
+brk("c16-siz-length-off-by-two", ["C16"],
+    [("jpeg2000/encoder.go", "uint16(sizData.Len()+2)", "uint16(sizData.Len())")],
+    "BYTES", "writeSIZ")
+brk("c16-tlm-entry-size-wrong", ["C16"],
+    [("jpeg2000/encoder.go", "uint16(4+len(entries)*6)", "uint16(4+len(entries)*4)")],
+    "BYTES", "writeTLM")
+brk("c16-huffman-fast-path-bypasses-stuffing", ["C16"],
+    [("jpeg/standard/huffman_encoder.go", "func (e *HuffmanEncoder) Flush() error {", "// WriteRaw appends pre-aligned bytes (fast path).\nfunc (e *HuffmanEncoder) WriteRaw(p []byte) error {\n	_, err := e.w.Write(p)\n	return err\n}\n\nfunc (e *HuffmanEncoder) Flush() error {"),
+     ("jpeg/lossless/encoder.go", "	if err := writer.WriteMarker(standard.MarkerEOI); err != nil {", "	_ = (*standard.HuffmanEncoder).WriteRaw\n	if err := writer.WriteMarker(standard.MarkerEOI); err != nil {")],
+    "OWNER-SINK", "HuffmanEncoder")
+brk("c16-lossless-return-before-eoi", ["C16"],
+    [("jpeg/lossless/encoder.go", "	// Write EOI\n	if err := writer.WriteMarker(standard.MarkerEOI); err != nil {", "	if len(samples) == 0 {\n		return buf.Bytes(), nil\n	}\n	// Write EOI\n	if err := writer.WriteMarker(standard.MarkerEOI); err != nil {")],
+    "ORDER-FRAMING", "lossless.Encode")
+brk("c16-j2k-write-after-eoc", ["C16"],
+    [("jpeg2000/encoder.go", "	return buf.Bytes(), nil\n}\n\n// applyCustomMCT", "	buf.WriteByte(0)\n	return buf.Bytes(), nil\n}\n\n// applyCustomMCT")],
+    "ORDER-FRAMING", "buildCodestream")
+benign("c16-benign-psot-reordered-terms", ["C16"],
+    [("jpeg2000/encoder.go", "uint32(len(data)+tileHeader.Len()+14)", "uint32(14+tileHeader.Len()+len(data))")])
+benign("c16-benign-length-via-local", ["C16"],
+    [("jpeg2000/encoder.go", "	if err := binary.Write(buf, binary.BigEndian, uint16(sizData.Len()+2)); err != nil {", "	lsiz := sizData.Len() + 2\n	if err := binary.Write(buf, binary.BigEndian, uint16(lsiz)); err != nil {")])
